@@ -193,8 +193,10 @@ m("C13-R1-struct-guard", "C13", "C13.R1", "builder/struct.go", '''		if !nextSour
 m("C13-R5-dirty-unguarded", "C13", "C13.R5", "generator/generator.go", '''			if !check.ReturnError {
 				check.ReturnError = true
 				check.Dirty = true
+				g.signatureChanged()
 			}''', '''			check.ReturnError = true
-			check.Dirty = true''')
+			check.Dirty = true
+			g.signatureChanged()''')
 m("C13-R3-dropped-error", "C13", "C13.R3", "generator/generate.go", '''		if err := generateConverter(converter, jenFile, n); err != nil {
 			return nil, err
 		}''', '''		_ = generateConverter(converter, jenFile, n)''')
@@ -283,6 +285,60 @@ m("C19-R4-tok-check", "C19", "C19.R4", "comments/parse_docs.go", '''		if decl.To
 m("C19-R3-sorted-lines", "C19", "C19.R3", "config/parse/line.go", '\treturn lines\n}', '\tsort.Strings(lines)\n\treturn lines\n}')
 m("C19-R2-text", "C19", "C19.R2", "pkgload/pkgload.go", 'lines := parse.SettingLines(parse.CommentToString(fn.Doc))', 'lines := parse.SettingLines(fn.Doc.Text())')
 
+# ---- rules added in round 2
+m("C01-R5-explicit-methods", "C01", "C01.R5", "config/method.go", 'for i := 0; i < interf.NumMethods(); i++ {\n\t\t\tfun := interf.Method(i)', 'for i := 0; i < interf.NumExplicitMethods(); i++ {\n\t\t\tfun := interf.ExplicitMethod(i)')
+m("C01-R5-setup-skip", "C01", "C01.R5", "generator/setup.go", '\t\tgen := &generatedMethod{\n\t\t\tMethod:   cMethod,', '\t\tif len(cMethod.RawFieldSettings) > 100 {\n\t\t\tcontinue\n\t\t}\n\t\tgen := &generatedMethod{\n\t\t\tMethod:   cMethod,')
+m("C01-R5-format-arm", "C01", "C01.R5", "generator/generator.go", '\t\tcase config.FormatFunction:\n\t\t\tfuncs = append(funcs, jen.Func().Id(def.Name).Add(def.Jen))\n', '')
+m("C01-R6-generated-only", "C01", "C01.R6", "generator/generator.go", 'case g.conf.OutputFormat == config.FormatFunction && m.Generated:', 'case m.Generated:')
+m("C01-R7-no-remark-context", "C01", "C01.R7", "generator/generator.go", '\t\tcheck.Dirty = true\n\t\tg.signatureChanged()\n\t}\n\treturn true', '\t\tcheck.Dirty = true\n\t}\n\treturn true')
+m("C06-R10-no-remark-context", "C06", "C06.R10", "generator/generator.go", '\t\tcheck.Dirty = true\n\t\tg.signatureChanged()\n\t}\n\treturn true', '\t\tcheck.Dirty = true\n\t}\n\treturn true')
+m("C07-R8-no-remark-error", "C07", "C07.R8", "generator/generator.go", '\t\t\t\tcheck.Dirty = true\n\t\t\t\tg.signatureChanged()\n', '\t\t\t\tcheck.Dirty = true\n')
+m("C07-R6-flip-no-dirty", "C07", "C07.R6", "generator/generator.go", '\t\t\t\tcheck.ReturnError = true\n\t\t\t\tcheck.Dirty = true\n\t\t\t\tg.signatureChanged()\n', '\t\t\t\tcheck.ReturnError = true\n')
+m("C02-R8-list-array-target", "C02", "C02.R8", "builder/list.go", 'return source.List && target.List && !target.ListFixed', 'return source.List && target.List')
+m("C04-R5-assignable", "C04", "C04.R5", "builder/skipcopy.go", 'return ctx.Conf.SkipCopySameType && source.String == target.String', 'return ctx.Conf.SkipCopySameType && source.AssignableTo(target)')
+m("C05-R6-extra-condition", "C05", "C05.R6", "builder/struct.go", 'if !targetField.Exported() && ctx.Conf.IgnoreUnexported {', 'if !targetField.Exported() && ctx.Conf.IgnoreUnexported && fieldMapping.Source == "" {')
+m("C05-R7-map-skip", "C05", "C05.R7", "config/method.go", '\t\tf := m.Field(target)\n\t\tf.Source = source\n', '\t\tif source == "" && custom == "" {\n\t\t\tbreak\n\t\t}\n\t\tf := m.Field(target)\n\t\tf.Source = source\n')
+m("C06-R7-prepend", "C06", "C06.R7", "method/index.go", '\tl.Exact[def.Signature] = append(l.Exact[def.Signature], newEntry)\n\treturn IndexID{', '\tl.Exact[def.Signature] = append([]IndexEntry[T]{newEntry}, l.Exact[def.Signature]...)\n\treturn IndexID{')
+m("C07-R7-prepend", "C07", "C07.R7", "method/index.go", '\tl.Exact[def.Signature] = append(l.Exact[def.Signature], newEntry)\n\treturn IndexID{', '\tl.Exact[def.Signature] = append([]IndexEntry[T]{newEntry}, l.Exact[def.Signature]...)\n\treturn IndexID{')
+m("C06-R8-extend-error-dropped", "C06", "C06.R8", "generator/generator.go", '''	if def, err := g.extend.Get(signature, ctx.AvailableContext); def != nil {
+		return g.CallMethod(ctx, def, sourceID, source, target, errPath)
+	} else if err != nil {
+		return nil, nil, builder.NewError(err.Error())
+	}''', '''	if def, _ := g.extend.Get(signature, ctx.AvailableContext); def != nil {
+		return g.CallMethod(ctx, def, sourceID, source, target, errPath)
+	}''')
+m("C06-R9-any-mapping", "C06", "C06.R9", "builder/struct.go", 'if fieldMapping.Source == "." && sourceID.ParentPointer != nil &&', 'if sourceID.ParentPointer != nil &&')
+m("C08-R5-counter", "C08", "C08.R5", "xtype/enum.go", 'func loadEnum(t *types.Named, cfg *enum.Config) *Enum {\n', 'var enumLoads int\n\nfunc loadEnum(t *types.Named, cfg *enum.Config) *Enum {\n\tenumLoads++\n')
+m("C08-R6-transform-conditional", "C08", "C08.R6", "config/method.go", '\t\tm.EnumMapping.Transformers = append(m.EnumMapping.Transformers, t)\n', '\t\tif config != "" {\n\t\t\tm.EnumMapping.Transformers = append(m.EnumMapping.Transformers, t)\n\t\t}\n')
+m("C09-R6-no-abs", "C09", "C09.R6", "config/parse/file.go", 'return filepath.Abs(filepath.Join(cwd, strings.TrimPrefix(field, "@cwd/")))', 'return filepath.Join(cwd, strings.TrimPrefix(field, "@cwd/")), nil')
+m("C11-R9-no-update-branch", "C11", "C11.R9", "generator/generator.go", '''	if assignTo.Update && source.Struct && target.Struct && !g.hasDeclared(ctx, source, target) {
+		// The source is applied on top of the existing target value. Calling a
+		// generated method would replace that value as a whole.
+		return g.assignNoLookup(ctx, assignTo, sourceID, source, target, errPath)
+	}
+''', '')
+m("C11-R9-bypass-declared", "C11", "C11.R9", "generator/generator.go", 'if assignTo.Update && source.Struct && target.Struct && !g.hasDeclared(ctx, source, target) {', 'if assignTo.Update && source.Struct && target.Struct {')
+m("C06-R1-bypass-declared", "C06", "C06.R1", "generator/generator.go", 'if assignTo.Update && source.Struct && target.Struct && !g.hasDeclared(ctx, source, target) {', 'if assignTo.Update && source.Struct && target.Struct {')
+m("C06-R1-declared-ignores-extend", "C06", "C06.R1", "generator/generator.go", '''	if def, err := g.extend.Get(signature, ctx.AvailableContext); def != nil || err != nil {
+		return true
+	}
+	genMethod, err := g.lookup.Get''', '''	genMethod, err := g.lookup.Get''')
+m("C12-R10-bool-not-no", "C12", "C12.R10", "config/parse/parse.go", 'return val == "" || val == "yes", err', 'return val != "no", err')
+m("C12-R9-name-conditional", "C12", "C12.R9", "config/converter.go", '\t\tc.Name, err = parse.String(rest)\n', '\t\tif rest != "" {\n\t\t\tc.Name, err = parse.String(rest)\n\t\t}\n')
+m("C12-R8-update-conditional", "C12", "C12.R8", "config/method.go", '\t\tm.updateParam, err = parse.String(rest)\n', '\t\tif m.updateParam == "" {\n\t\t\tm.updateParam, err = parse.String(rest)\n\t\t}\n')
+m("C13-R5-candidate-mod", "C13", "C13.R5", "namer/namer.go", '\t\tnumberedName := name\n\t\tif i > 1 {\n\t\t\tnumberedName += fmt.Sprint(i)\n\t\t}', '\t\tnumberedName := name\n\t\tif i > 1 {\n\t\t\tnumberedName = name + fmt.Sprint(i%10)\n\t\t}')
+m("C14-R5-package-fallback", "C14", "C14.R5", "config/method.go", '''		m.Constructor, err = ctx.Loader.GetOne(c.Package, rest, opts)''', '''		if opts.OutputPackagePath == "" {
+			opts.OutputPackagePath = c.Package
+		}
+		m.Constructor, err = ctx.Loader.GetOne(c.Package, rest, opts)''')
+m("C15-R7-first-converter", "C15", "C15.R7", "config/package.go", 'registerConverterLines(lookup, raw.WorkDir, c.FileName, c.PackagePath, raw.Global)', 'registerConverterLines(lookup, raw.WorkDir, raw.Converters[0].FileName, raw.Converters[0].PackagePath, raw.Global)')
+m("C16-R5-remove", "C16", "C16.R5", "generator/filemanager.go", '\toutput := getOutputDir(conv)\n', '\toutput := getOutputDir(conv)\n\t_ = os.Remove(output)\n')
+m("C16-R6-stat", "C16", "C16.R6", "generator/filemanager.go", '\toutput := getOutputDir(conv)\n', '\toutput := getOutputDir(conv)\n\tif st, err := os.Stat(output); err == nil && st.IsDir() {\n\t\treturn nil, nil, fmt.Errorf("output %s is a directory", output)\n\t}\n')
+m("C17-O8-skip-empty", "C17", "C17.O8", "generator/generate.go", '\t\tif err := generateConverter(converter, jenFile, n); err != nil {', '\t\tif len(converter.Methods) == 0 && len(converter.OutputRaw) == 0 && len(converter.Comments) == 0 {\n\t\t\tcontinue\n\t\t}\n\t\tif err := generateConverter(converter, jenFile, n); err != nil {')
+m("C18-R5-counter", "C18", "C18.R5", "xtype/enum.go", 'func loadEnum(t *types.Named, cfg *enum.Config) *Enum {\n', 'var enumLoads int\n\nfunc loadEnum(t *types.Named, cfg *enum.Config) *Enum {\n\tenumLoads++\n')
+m("C19-R7-stop-at-blank", "C19", "C19.R7", "config/parse/line.go", '\t\tline := strings.TrimSpace(scanner.Text())\n', '\t\tline := strings.TrimSpace(scanner.Text())\n\t\tif line == "" && len(lines) > 0 {\n\t\t\tbreak\n\t\t}\n')
+m("C03-R8-exported-only", "C03", "C03.R8", "enum/detect.go", '\t\tif !ok {\n\t\t\tcontinue\n\t\t}\n', '\t\tif !ok || !c.Exported() {\n\t\t\tcontinue\n\t\t}\n')
+
 def run(cmd, cwd=None):
     return subprocess.run(cmd, cwd=cwd, env=ENV, shell=isinstance(cmd, str), capture_output=True, text=True, errors='replace')
 
@@ -306,6 +362,8 @@ def main():
             if "sort.Strings(lines)" in e["new"] and '"sort"' not in s:
                 s = s.replace('import (\n', 'import (\n\t"sort"\n', 1)
             if "os.Getenv" in e["new"] and '"os"' not in s:
+                s = s.replace('import (\n', 'import (\n\t"os"\n', 1)
+            if "os.Stat" in e["new"] and '"os"' not in s:
                 s = s.replace('import (\n', 'import (\n\t"os"\n', 1)
             if "os.Remove" in e["new"] and '"os"' not in s:
                 s = s.replace('import (\n', 'import (\n\t"os"\n', 1)
